@@ -301,20 +301,72 @@ theorem c29_chain_recursion {s p hs last s'} (w : Walk s p hs last s') (hl : las
       simp only [resolve, h1, hq, List.length_cons, Bool.not_true, Bool.false_eq_true, if_false,
         beq_iff_eq, hd1, hgt, if_true, Nat.add_sub_cancel, this]
 
+/-- Fuel sufficiency: with a depth limit `d ≥ 1` the model's recursion never needs more than `d`
+units of fuel — extra fuel changes nothing, so `resolve d s p d` is THE result (the out-of-fuel
+answer of the model is unreachable for `d ≥ 1`). -/
+theorem c29_fuel_suffices (d : Nat) (hd : 1 ≤ d) : ∀ (extra : Nat) (s : St) (p : Path),
+    resolve (d + extra) s p d = resolve d s p d := by
+  induction d with
+  | zero => omega
+  | succ d ih =>
+    intro extra s p
+    have e : d + 1 + extra = (d + extra) + 1 := by omega
+    rw [e]
+    unfold resolve
+    cases hr : resolveOnce s p with
+    | mk s1 hop =>
+      cases hop with
+      | none => rfl
+      | err e => rfl
+      | ok q t =>
+        simp only
+        by_cases hq : q.mutable = true
+        · simp only [hq, Bool.not_true, Bool.false_eq_true, if_false]
+          by_cases h1 : d + 1 = 1
+          · simp [h1]
+          · have hd' : 1 ≤ d := by omega
+            have hgt : d + 1 > 1 := by omega
+            simp only [beq_iff_eq, h1, if_false, hgt, if_true, Nat.add_sub_cancel]
+            rw [ih hd' extra s1 q]
+        · simp [hq]
+
+/-- Depth 0 means "unlimited": a chain that is still mutable after `n` hops exhausts ANY amount `n`
+of model fuel (the `.failed` out-of-fuel answer), for every `n` — i.e. on a cycle the real code,
+which has no fuel, does not terminate. (On a chain that reaches an immutable path after `n` hops,
+`c29_chain_ok` with `d = 0` gives the answer for every fuel ≥ n.) -/
+theorem c29_depth0_unbounded {s p hs last s'} (w : Walk s p hs last s') (hl : last.mutable = true) :
+    resolve hs.length s p 0 = (s', .failed) := by
+  induction w with
+  | @one s p s1 q t h1 => simp [resolve, h1, hl]
+  | @cons s p s1 q t rest last s2 h1 hq w ih =>
+    have := ih hl
+    simp only [List.length_cons, resolve, h1, hq, Bool.not_true, Bool.false_eq_true, if_false]
+    simp [this]
+
 /-- The TTL of a resolved chain is the smallest positive hop TTL; it is 0 when no hop has a positive
-TTL (for chains of ≥ 2 hops; a single hop reports its own TTL unchanged), and never negative. -/
-theorem c29_ttl_min (ts : List Int) (h : 2 ≤ ts.length) :
+TTL (for chains of ≥ 2 hops; a single hop reports its own TTL unchanged), and never negative —
+for hop TTLs in the int64 range of a time.Duration. -/
+theorem c29_ttl_min (ts : List Int) (h : 2 ≤ ts.length) (hr : ∀ t ∈ ts, inI64 t) :
     0 ≤ foldTTL ts ∧ (∀ t ∈ ts, 0 < t → foldTTL ts ≤ t) ∧
     ((foldTTL ts = 0 ∧ ∀ t ∈ ts, t ≤ 0) ∨ (0 < foldTTL ts ∧ foldTTL ts ∈ ts)) := by
   have hne : ts ≠ [] := by intro e; simp [e] at h
-  have g := foldTTL_good ts hne
+  have g := foldTTL_good ts hne hr
   have h0 : 0 ≤ foldTTL ts := by
-    match ts, h with
-    | a :: b :: r, _ => rw [foldTTL_cons a (b :: r) (by simp)]; exact minNonZeroTTL_nonneg _ _
+    match ts, h, hr with
+    | a :: b :: r, _, hr =>
+      rw [foldTTL_cons a (b :: r) (by simp)]
+      exact minNonZeroTTL_nonneg _ _ (hr a (by simp)) (foldTTL_range (b :: r) (fun t ht => hr t (by simp [ht])))
   refine ⟨h0, g.1, ?_⟩
   rcases g.2 with ⟨hm, hall⟩ | hpos
   · exact .inl ⟨by omega, hall⟩
   · exact .inr hpos
+
+/-- `minNonZeroTTL` as regenerated from the Go source (T-gen `extract ints`, `Gen.C29`), read on
+int64 durations, is the intended function: the smaller of the two when both are positive, the
+positive one when only one is, 0 otherwise. -/
+theorem c29_minNonZeroTTL_regenerated (a b : Int) (ha : inI64 a) (hb : inI64 b) :
+    minNonZeroTTL a b = (if min a b ≤ 0 then max 0 (max a b) else min a b) :=
+  minNonZeroTTL_eq a b ha hb
 
 /-- Every hop appends the unresolved remainder of the path it was asked about to the value found
 (cached or stored): segments after the root, and the trailing slash. -/
